@@ -85,6 +85,14 @@ def own_walk(node: ast.AST) -> Iterator[ast.AST]:
         stack.extend(ast.iter_child_nodes(n))
 
 
+def parent_map(fn: ast.AST) -> dict:
+    out = {}
+    for n in ast.walk(fn):
+        for c in ast.iter_child_nodes(n):
+            out[c] = n
+    return out
+
+
 def names_in(e: ast.AST) -> set[str]:
     return {n.id for n in ast.walk(e) if isinstance(n, ast.Name)}
 
